@@ -253,10 +253,10 @@ class FusionART(BaseART):
         """
         skip_channels = [self.n + k if k < 0 else k for k in skip_channels]
         channel_data = self.split_channel_data(X, skip_channels=skip_channels)
+        kept_channels = [i for i in range(self.n) if i not in skip_channels]
         restored_channel_data = [
-            self.modules[i].restore_data(channel_data[i])
-            for i in range(self.n)
-            if i not in skip_channels
+            self.modules[i].restore_data(channel_data[pos])
+            for pos, i in enumerate(kept_channels)
         ]
         return restored_channel_data
 
